@@ -41,7 +41,7 @@ enum Step {
 }
 
 #[derive(Clone, Debug, PartialEq)]
-struct Workload { pad: usize, steps: Vec<Step>, only: Option<(usize, usize, char)> }
+struct Workload { pad: usize, fresh: bool, steps: Vec<Step>, only: Option<(usize, usize, char)> }
 
 fn step_str(s: &Step) -> String {
     match s {
@@ -78,14 +78,15 @@ fn parse_step(s: &str) -> Option<Step> {
 }
 impl Workload {
     fn line(&self) -> String {
-        let mut s = format!("pad={} steps={}", self.pad, self.steps.iter().map(step_str).collect::<Vec<_>>().join(","));
+        let mut s = format!("{}pad={} steps={}", if self.fresh { "base=fresh " } else { "" }, self.pad, self.steps.iter().map(step_str).collect::<Vec<_>>().join(","));
         if let Some((i, j, m)) = self.only { s.push_str(&format!(" at={}.{}.{}", i, if j == usize::MAX { "e".to_string() } else { j.to_string() }, m)); }
         s
     }
     fn parse(l: &str) -> Option<Workload> {
-        let mut w = Workload { pad: 0, steps: vec![], only: None };
+        let mut w = Workload { pad: 0, fresh: false, steps: vec![], only: None };
         for tok in l.split_whitespace() {
             if let Some(r) = tok.strip_prefix("pad=") { w.pad = r.parse().ok()?; }
+            else if tok == "base=fresh" { w.fresh = true; }
             else if let Some(r) = tok.strip_prefix("steps=") {
                 for s in r.split(',') { if !s.is_empty() { w.steps.push(parse_step(s)?); } }
             } else if let Some(r) = tok.strip_prefix("at=") {
@@ -166,6 +167,7 @@ struct Obs {
     tables: Vec<(u32, Option<Vec<(i64, i64)>>)>,// per table of the universe: None = unreadable / missing
     probe_ok: bool,                             // key probes agree with the scan
     pages: Vec<(i64, i64, i64)>,                // recovered (file, page, image); image -1 = not an image seen before
+    div: bool,                                  // the image lists turdb_catalog/ after root/ (recover_all_tables: later insert wins)
     note: String,
 }
 
@@ -180,10 +182,11 @@ struct Ctx {
     step: usize, j: usize,
     universe: Vec<u32>, keys: Vec<i64>,
     obs: Vec<Obs>,
-    cache: HashMap<u64, (i64, Vec<(u32, Option<Vec<(i64, i64)>>)>, bool, Vec<(i64, i64, i64)>, String)>,
+    cache: HashMap<u64, (i64, Vec<(u32, Option<Vec<(i64, i64)>>)>, bool, Vec<(i64, i64, i64)>, String, bool)>,
     only: Option<(usize, usize, char)>,
     evals: u64, cache_hits: u64,
     in_workload: bool,
+    fresh: bool,
 }
 
 static CTX: Mutex<Option<Ctx>> = Mutex::new(None);
@@ -213,6 +216,18 @@ fn copy_tree(a: &Path, b: &Path) {
         if let Ok(rd) = std::fs::read_dir(a) { for e in rd.flatten() { let p = e.path(); if p.is_dir() { let q = b.join(e.file_name()); let _ = std::fs::create_dir_all(&q); dirs(&p, &q); } } }
     }
     dirs(a, b);
+    for (rel, p) in fs { let q = b.join(&rel); if let Some(d) = q.parent() { let _ = std::fs::create_dir_all(d); } std::fs::copy(&p, &q).unwrap(); }
+}
+/// the same copy with the sub-directories created in the opposite order (flips readdir order on
+/// file systems that list by creation order, e.g. tmpfs)
+fn copy_tree_rev(a: &Path, b: &Path) {
+    let _ = std::fs::remove_dir_all(b);
+    std::fs::create_dir_all(b).unwrap();
+    let mut ds: Vec<PathBuf> = std::fs::read_dir(a).map(|rd| rd.flatten().map(|e| e.path()).filter(|p| p.is_dir()).collect()).unwrap_or_default();
+    ds.reverse();
+    for d in &ds { let _ = std::fs::create_dir_all(b.join(d.file_name().unwrap())); }
+    let mut fs = vec![];
+    walk(a, a, &mut fs);
     for (rel, p) in fs { let q = b.join(&rel); if let Some(d) = q.parent() { let _ = std::fs::create_dir_all(d); } std::fs::copy(&p, &q).unwrap(); }
 }
 fn fingerprint(dir: &Path) -> u64 {
@@ -324,22 +339,30 @@ impl Ctx {
     }
     fn crash_point(&mut self) {
         if !self.in_workload { return; }
+        // directory enumeration order is not under the database's control: when table ids can collide
+        // (fresh base) every image is reopened in both orders of root/ and turdb_catalog/
+        let orders: Vec<Option<bool>> = if self.fresh { vec![Some(false), Some(true)] } else { vec![None] };
         for mode in ['K', 'P'] {
             if let Some((i, j, m)) = self.only { if (i, j, m) != (self.step, self.j, mode) { continue; } }
             let src = if mode == 'K' { self.db.clone() } else { self.shadow.clone() };
-            let fp = fingerprint(&src);
-            let r = if let Some(r) = self.cache.get(&fp) { self.cache_hits += 1; r.clone() } else {
-                let r = self.evaluate(&src);
-                self.cache.insert(fp, r.clone());
-                r
-            };
-            self.obs.push(Obs { step: self.step, j: self.j, mode, open: r.0, tables: r.1, probe_ok: r.2, pages: r.3, note: r.4 });
+            let fp0 = fingerprint(&src);
+            for want in &orders {
+                let fp = fp0 ^ match want { None => 0, Some(false) => 0x1111_1111, Some(true) => 0x2222_2222 };
+                let r = if let Some(r) = self.cache.get(&fp) { self.cache_hits += 1; r.clone() } else {
+                    let r = self.evaluate(&src, *want);
+                    self.cache.insert(fp, r.clone());
+                    r
+                };
+                self.obs.push(Obs { step: self.step, j: self.j, mode, open: r.0, tables: r.1, probe_ok: r.2, pages: r.3, note: r.4, div: r.5 });
+            }
         }
     }
-    fn evaluate(&mut self, src: &Path) -> (i64, Vec<(u32, Option<Vec<(i64, i64)>>)>, bool, Vec<(i64, i64, i64)>, String) {
+    fn evaluate(&mut self, src: &Path, want: Option<bool>) -> (i64, Vec<(u32, Option<Vec<(i64, i64)>>)>, bool, Vec<(i64, i64, i64)>, String, bool) {
         self.evals += 1;
         let dir = self.eval.clone();
         copy_tree(src, &dir);
+        if let Some(w) = want { if catalog_last(&dir) != w { copy_tree_rev(src, &dir); } }
+        let div = catalog_last(&dir);
         let universe = self.universe.clone();
         let keys = self.keys.clone();
         let d2 = dir.clone();
@@ -380,10 +403,10 @@ impl Ctx {
                 // recovered pages, read while the recovering handle is still alive (no clean-shutdown effects yet)
                 let pages = self.read_pages(&dir);
                 let _ = catch(AssertUnwindSafe(move || drop(db)));
-                (0, tabs, probe_ok, pages, note)
+                (0, tabs, probe_ok, pages, note, div)
             }
-            Caught::Done(Err(e)) => (1, vec![], true, self.read_pages(&dir), e.chars().take(100).collect()),
-            Caught::Panicked(m) => (2, vec![], true, self.read_pages(&dir), m.chars().take(100).collect()),
+            Caught::Done(Err(e)) => (1, vec![], true, self.read_pages(&dir), e.chars().take(100).collect(), div),
+            Caught::Panicked(m) => (2, vec![], true, self.read_pages(&dir), m.chars().take(100).collect(), div),
         };
         let _ = std::fs::remove_dir_all(&dir);
         out
@@ -408,6 +431,30 @@ impl Ctx {
     }
 }
 
+/// user tables whose header table id is also the id of a system table, if recover_all_tables
+/// visits turdb_catalog/ after root/ in a copy made like the crash images (later insert wins)
+fn shadowed_tables(db: &Path, scratch: &Path) -> Vec<i64> {
+    let hdr_id = |p: &Path| -> u64 { let b = std::fs::read(p).unwrap_or_default(); if b.len() >= 24 { u64::from_le_bytes(b[16..24].try_into().unwrap()) } else { 0 } };
+    let mut sys: Vec<u64> = vec![];
+    if let Ok(rd) = std::fs::read_dir(db.join("turdb_catalog")) { for e in rd.flatten() { if e.path().extension().map(|x| x == "tbd").unwrap_or(false) { sys.push(hdr_id(&e.path())); } } }
+    let mut out = vec![];
+    if let Ok(rd) = std::fs::read_dir(db.join("root")) {
+        for e in rd.flatten() {
+            let rel = format!("root/{}", e.file_name().to_string_lossy());
+            if let Some((1, t)) = file_key(&rel) { if sys.contains(&hdr_id(&e.path())) { out.push(t as i64); } }
+        }
+    }
+    let _ = scratch;
+    out.sort();
+    out
+}
+/// does read_dir list turdb_catalog/ after root/ in this image?
+fn catalog_last(dir: &Path) -> bool {
+    let order: Vec<String> = std::fs::read_dir(dir).map(|rd| rd.flatten().map(|e| e.file_name().to_string_lossy().to_string()).collect()).unwrap_or_default();
+    let pos = |n: &str| order.iter().position(|x| x == n);
+    match (pos("root"), pos("turdb_catalog")) { (Some(r), Some(c)) => c > r, _ => false }
+}
+
 fn hook(kind: u32, path: &Path, a: u64, b: u64) {
     if busy() { return; }
     set_busy(true);
@@ -424,7 +471,7 @@ fn scratch_root() -> PathBuf {
 
 #[derive(Clone, Debug)]
 struct StepRec { step: Step, ok: bool, phys: Vec<Phys>, err: String }
-struct RunOut { steps: Vec<StepRec>, obs: Vec<Obs>, evals: u64, cache_hits: u64, setup_err: Option<String> }
+struct RunOut { steps: Vec<StepRec>, obs: Vec<Obs>, evals: u64, cache_hits: u64, setup_err: Option<String>, shadow: Vec<i64> }
 
 fn open_session(db: &Path) -> Result<Database, String> {
     let d = Database::open(db).map_err(|e| format!("open: {:#}", e))?;
@@ -451,20 +498,21 @@ fn run_workload(w: &Workload) -> RunOut {
     keys.sort();
     // baseline: a database created and cleanly shut down earlier (everything synced)
     turdb::verif_hooks::set_io_hook(None);
+    let fresh = w.fresh;
     let setup = catch(AssertUnwindSafe(|| -> Result<(), String> {
         let d = Database::create(&dbp).map_err(|e| format!("create: {:#}", e))?;
         // a first table makes save_meta persist next_table_id: without it the ids handed out after a
         // reopen collide with those of the system tables (turdb.meta is written once, with 1)
-        d.execute("CREATE TABLE seed0 (x INT)").map_err(|e| format!("seed: {:#}", e))?;
+        if !fresh { d.execute("CREATE TABLE seed0 (x INT)").map_err(|e| format!("seed: {:#}", e))?; }
         drop(d);
         Ok(())
     }));
-    let mut out = RunOut { steps: vec![], obs: vec![], evals: 0, cache_hits: 0, setup_err: None };
+    let mut out = RunOut { steps: vec![], obs: vec![], evals: 0, cache_hits: 0, setup_err: None, shadow: vec![] };
     match setup { Caught::Done(Ok(())) => {}, Caught::Done(Err(e)) => { out.setup_err = Some(e); return out; }, Caught::Panicked(m) => { out.setup_err = Some(m); return out; } }
     copy_tree(&dbp, &root.join("shadow"));
     *CTX.lock() = Some(Ctx { db: dbp.clone(), shadow: root.join("shadow"), eval: root.join("eval"), img: HashMap::new(),
         pages: BTreeMap::new(), domain: BTreeMap::new(), wal_seen: HashMap::new(), table_ids: HashMap::new(), phys: vec![], step: 0, j: 0,
-        universe, keys, obs: vec![], cache: HashMap::new(), only: w.only, evals: 0, cache_hits: 0, in_workload: false });
+        universe, keys, obs: vec![], cache: HashMap::new(), only: w.only, evals: 0, cache_hits: 0, in_workload: false, fresh: w.fresh });
     turdb::verif_hooks::set_io_hook(Some(Arc::new(hook)));
     let mut db: Option<Database> = match catch(AssertUnwindSafe(|| open_session(&dbp))) {
         Caught::Done(Ok(d)) => Some(d),
@@ -503,6 +551,7 @@ fn run_workload(w: &Workload) -> RunOut {
     let c = CTX.lock().take().unwrap();
     let _ = catch(AssertUnwindSafe(move || drop(db)));
     out.obs = c.obs; out.evals = c.evals; out.cache_hits = c.cache_hits;
+    out.shadow = shadowed_tables(&dbp, &root.join("probe_order"));
     let _ = std::fs::remove_dir_all(&root);
     out
 }
@@ -604,8 +653,8 @@ fn img_t(o: &Obs) -> String {
         None => "None".to_string(),
         Some(rows) => format!("(Some [{}])", rows.iter().map(|x| format!("R2 {} {}", zt(x.0), zt(x.1))).collect::<Vec<_>>().join("; ")),
     })).collect();
-    format!("CImg {} [{}] {} [{}]", o.open, tabs.join("; "), cbool(o.probe_ok),
-        o.pages.iter().map(|x| format!("R3 {} {} {}", zt(x.0), zt(x.1), zt(x.2))).collect::<Vec<_>>().join("; "))
+    format!("CImg {} [{}] {} [{}] {}", o.open, tabs.join("; "), cbool(o.probe_ok),
+        o.pages.iter().map(|x| format!("R3 {} {} {}", zt(x.0), zt(x.1), zt(x.2))).collect::<Vec<_>>().join("; "), cbool(o.div))
 }
 
 fn case_term(r: &RunOut) -> (String, usize) {
@@ -623,7 +672,7 @@ fn case_term(r: &RunOut) -> (String, usize) {
         let k = *idx.entry(t.clone()).or_insert_with(|| { imgs.push(t); imgs.len() - 1 });
         pts.push(format!("CP {} {} {} {}", o.step, if o.j == usize::MAX { "(-1)".to_string() } else { o.j.to_string() }, cbool(o.mode == 'P'), k));
     }
-    (format!("Case [{}]\n    [{}]\n    [{}]", st.join(";\n    "), imgs.join(";\n     "), pts.join("; ")), n_ok)
+    (format!("Case [{}]\n    {}\n    [{}]\n    [{}]", st.join(";\n    "), zlist(&r.shadow), imgs.join(";\n     "), pts.join("; ")), n_ok)
 }
 
 // ------------------------------------------------------------------ row-level oracle (Rust port of c01_ok / c02_ok of the Corr files)
@@ -740,7 +789,7 @@ fn gen_workload(rng: &mut Rng, shape: u32, len: usize) -> Workload {
         if in_txn { txn_left -= 1; }
     }
     if in_txn && rng.chance(1, 2) { steps.push(Step::Commit); }
-    Workload { pad, steps, only: None }
+    Workload { pad, fresh: false, steps, only: None }
 }
 
 fn fixed_workloads() -> Vec<Workload> {
@@ -753,6 +802,8 @@ fn fixed_workloads() -> Vec<Workload> {
         "pad=0 steps=ct1,i1.1.10,i1.2.20,k,b,i1.3.30,u1.2.21,d1.1,c",
         // leaf split and root split inside one statement, with and without log coverage
         "pad=1000 steps=ct1,i1.1.1,i1.2.2,i1.3.3,i1.4.4,i1.5.5,i1.6.6,i1.7.7,i1.8.8,i1.9.9,i1.10.10,i1.11.11,i1.12.12,i1.13.13,i1.14.14,i1.15.15,k,i1.16.16,i1.17.17,u1.3.33",
+        // a database that was closed before its first CREATE TABLE: table ids collide with the system tables'
+        "base=fresh pad=0 steps=ct1,i1.1.10,ct2,i2.1.11,u1.1.12,k,i1.2.20",
     ].iter().map(|l| Workload::parse(l).unwrap()).collect()
 }
 
@@ -843,9 +894,9 @@ fn trace(a: &Args) {
         for p in &s.phys { println!("    {:?}", p); }
         if !s.ok { break; }
         for o in r.obs.iter().filter(|o| o.step == i) {
-            println!("      obs j={} {} open={} c01={} c02={} why={} tables={:?} probe_ok={} pages={:?} {}", if o.j == usize::MAX { -1 } else { o.j as i64 }, o.mode, o.open,
+            println!("      obs j={} {} div={} open={} c01={} c02={} why={} tables={:?} probe_ok={} pages={:?} {}", if o.j == usize::MAX { -1 } else { o.j as i64 }, o.mode, o.div, o.open,
                 c01_ok(&plain, o), c02_ok(&plain, &universe, o), why(&r.steps, o), o.tables, o.probe_ok, o.pages, o.note);
         }
     }
-    println!("evals={} cache_hits={} obs={} {:?}", r.evals, r.cache_hits, r.obs.len(), t0.elapsed());
+    println!("evals={} cache_hits={} obs={} shadow={:?} {:?}", r.evals, r.cache_hits, r.obs.len(), r.shadow, t0.elapsed());
 }
